@@ -229,6 +229,28 @@ func Print(f *dst.File) ([]byte, error) {
 	return buf.Bytes(), err
 }
 
+// PrintThenReuse restores f with a FileRestorer of r, lets the same FileRestorer restore another
+// file (with comments and a multi-line literal), and only then prints the first result: what
+// RestoreFile returned must not depend on what the FileRestorer does afterwards.
+func PrintThenReuse(r *decorator.Restorer, f *dst.File) ([]byte, error) {
+	fr := r.FileRestorer()
+	af, err := fr.RestoreFile(f)
+	if err != nil {
+		return nil, err
+	}
+	ff, err := decorator.Parse(filler)
+	if err != nil {
+		return nil, err
+	}
+	fr.Name = "later.go"
+	if _, err := fr.RestoreFile(ff); err != nil {
+		return nil, err
+	}
+	var buf bytes.Buffer
+	err = format.Node(&buf, fr.Fset, af)
+	return buf.Bytes(), err
+}
+
 // NodeKinds counts the distinct go/ast node types of a file and reports whether a comment or a
 // blank line lies strictly inside a declaration.
 func NodeKinds(fset *token.FileSet, f *ast.File, src []byte) (kinds int, innerDecoration bool) {
